@@ -95,7 +95,7 @@ func (w *world) cfgLine() {
 			fmt.Sscanf(k, "%d", &q)
 			tcs = append(tcs, []int{q, v})
 		}
-		ev["p4"] = map[string]interface{}{"accessLen": ones, "uePool": []uint32{sysh.U32(pn.IP), uint32(pones)}, "slice": o.P4Slice, "defaultTC": o.P4DefaultTC, "qfiTC": tcs, "clear": o.P4Clear}
+		ev["p4"] = map[string]interface{}{"accessLen": ones, "uePool": []uint32{sysh.U32(pn.IP), uint32(pones)}, "slice": o.P4Slice, "defaultTC": o.P4DefaultTC, "qfiTC": tcs, "clear": o.P4Clear, "ctrSize": o.P4CtrSize}
 	}
 	w.emit("cfg", false, ev)
 }
